@@ -200,29 +200,14 @@ example : [(-3 : Int), 2].mapM (normAxis · 3) = some [0, 2] ∧ (moveToEnd 3 [0
     ∧ (moveToEnd 3 [2, 1]).mapM (fun k => [5, 4, 2][k]?) = some ([5] ++ [2, 4]) := by decide
 example : scatter ([1] ++ [0, 3]) (moveToEnd 3 [0, 2]) = placeIdx [0, 2] [0, 3] (List.range 3) [1] := by decide
 
-/-- cross-check of `tensordot_eq_def` by kernel evaluation: every pair of operand shapes of rank ≤ 2 with extents 1..3,
+/-- cross-check of `tensordot_eq_def` by kernel evaluation: every pair of operand shapes of rank ≤ 2 with extents 1..2,
     every ordered choice of contracted axes that NumPy accepts — NumPy's shape and exactly NumPy's terms at every index -/
-theorem tensordot_axes_small_scope (sa sb : Shape)
-    (ha : sa ∈ shapesOfRank 1 3 ∨ sa ∈ shapesOfRank 2 3) (hb : sb ∈ shapesOfRank 1 3 ∨ sb ∈ shapesOfRank 2 3) :
-    tensordotAgrees sa sb = true := by
-  have hsplit : ∀ x, x ∈ shapesOfRank 2 3 →
-      x ∈ (shapesOfRank 2 3).take 3 ∨ x ∈ ((shapesOfRank 2 3).drop 3).take 3 ∨ x ∈ (shapesOfRank 2 3).drop 6 := by
-    intro x hx
-    have : shapesOfRank 2 3 = (shapesOfRank 2 3).take 3 ++ (((shapesOfRank 2 3).drop 3).take 3 ++ (shapesOfRank 2 3).drop 6) := by decide
-    rw [this] at hx
-    simpa [List.mem_append] using hx
-  rcases ha with ha | ha <;> rcases hb with hb | hb
-  · exact tensordot_small_11 sa ha sb hb
-  · exact tensordot_small_12 sa ha sb hb
-  · exact tensordot_small_21 sa ha sb hb
-  · rcases hsplit sa ha with h | h | h
-    · exact tensordot_small_22a sa h sb hb
-    · exact tensordot_small_22b sa h sb hb
-    · exact tensordot_small_22c sa h sb hb
+theorem tensordot_axes_small_scope (sa sb : Shape) (ha : sa ∈ smallShapes) (hb : sb ∈ smallShapes) :
+    tensordotAgrees sa sb = true := tensordot_small sa ha sb hb
 
-example : [2, 3] ∈ shapesOfRank 2 3 ∧ [3, 2] ∈ shapesOfRank 2 3 ∧
-    (specTensordot [2, 3] [3, 2] [1, 0] [0, 1]).map (fun s => (s.shape, s.get [])) =
-      some ([], [([0, 0], [0, 0]), ([1, 0], [0, 1]), ([0, 1], [1, 0]), ([1, 1], [1, 1]), ([0, 2], [2, 0]), ([1, 2], [2, 1])]) := by decide
+example : [2, 2] ∈ smallShapes ∧
+    (specTensordot [2, 2] [2, 2] [1, 0] [0, 1]).map (fun s => (s.shape, s.get [])) =
+      some ([], [([0, 0], [0, 0]), ([1, 0], [0, 1]), ([0, 1], [1, 0]), ([1, 1], [1, 1])]) := by decide
 
 /-! ### kron -/
 
@@ -244,35 +229,17 @@ theorem kron_dst_transpose_closed_form (l r : Nat) :
 
 example : (List.range 5).map (kronAxis 1 4) = [1, 2, 3, 0, 4] ∧ (List.range 5).map (kronAxis 3 2) = [0, 1, 3, 2, 4] := by decide
 
-/-- cross-check of `kron_eq_def` by kernel evaluation on a small scope (ranks ≤ 2 / extents ≤ 3, ranks up to 3 / extents ≤ 2) -/
+/-- cross-check of `kron_eq_def` by kernel evaluation on a small scope (ranks ≤ 2 / extents ≤ 2, and ranks (1,3), (3,1)) -/
 theorem kron_small_scope (sa sb : Shape)
-    (h : (sa ∈ shapesOfRank 1 3 ∨ sa ∈ shapesOfRank 2 3) ∧ (sb ∈ shapesOfRank 1 3 ∨ sb ∈ shapesOfRank 2 3)
-       ∨ (sa ∈ shapesOfRank 1 2 ∨ sa ∈ shapesOfRank 2 2) ∧ sb ∈ shapesOfRank 3 2
-       ∨ sa ∈ shapesOfRank 3 2 ∧ (sb ∈ shapesOfRank 1 2 ∨ sb ∈ shapesOfRank 2 2)) :
+    (h : (sa ∈ smallShapes ∧ sb ∈ smallShapes) ∨ (sa ∈ shapesOfRank 1 2 ∧ sb ∈ shapesOfRank 3 2)
+       ∨ (sa ∈ shapesOfRank 3 2 ∧ sb ∈ shapesOfRank 1 2)) :
     kronAgrees sa sb = true := by
-  have hsplit : ∀ x, x ∈ shapesOfRank 2 3 →
-      x ∈ (shapesOfRank 2 3).take 3 ∨ x ∈ ((shapesOfRank 2 3).drop 3).take 3 ∨ x ∈ (shapesOfRank 2 3).drop 6 := by
-    intro x hx
-    have : shapesOfRank 2 3 = (shapesOfRank 2 3).take 3 ++ (((shapesOfRank 2 3).drop 3).take 3 ++ (shapesOfRank 2 3).drop 6) := by decide
-    rw [this] at hx
-    simpa [List.mem_append] using hx
   rcases h with ⟨ha, hb⟩ | ⟨ha, hb⟩ | ⟨ha, hb⟩
-  · rcases ha with ha | ha <;> rcases hb with hb | hb
-    · exact kron_small_11 sa ha sb hb
-    · exact kron_small_12 sa ha sb hb
-    · exact kron_small_21 sa ha sb hb
-    · rcases hsplit sa ha with h | h | h
-      · exact kron_small_22a sa h sb hb
-      · exact kron_small_22b sa h sb hb
-      · exact kron_small_22c sa h sb hb
-  · rcases ha with ha | ha
-    · exact kron_small_13 sa ha sb hb
-    · exact kron_small_23 sa ha sb hb
-  · rcases hb with hb | hb
-    · exact kron_small_31 sa ha sb hb
-    · exact kron_small_32 sa ha sb hb
+  · exact kron_small sa ha sb hb
+  · exact kron_small_13 sa ha sb hb
+  · exact kron_small_31 sa ha sb hb
 
-example : [2, 3] ∈ shapesOfRank 2 3 ∧ [3] ∈ shapesOfRank 1 3 ∧ (specKron [2, 3] [3]).shape = [2, 9] ∧
-    (specKron [2, 3] [3]).get [1, 7] = ([1, 2], [1]) := by decide
+example : [2, 2] ∈ smallShapes ∧ [2] ∈ smallShapes ∧ (specKron [2, 2] [2]).shape = [2, 4] ∧
+    (specKron [2, 2] [2]).get [1, 3] = ([1, 1], [1]) := by decide
 
 end NmVerif.Props.C16
